@@ -35,6 +35,7 @@ Why(c) ==
                                                              ELSE IF c.id = "reuse" THEN "bound-signal-of-a-dead-instance-handed-to-a-new-instance"
                                                              ELSE IF c.id = "private" THEN "private-signals-of-base-and-subclass-share-a-bound-signal"
                                                              ELSE IF c.id = "context" THEN "bound-signal-of-a-context-changes-over-its-life-cycle"
+                                                             ELSE IF c.id = "copy-delivery" THEN "events-cross-between-an-instance-and-its-copy"
                                                              ELSE "binding-keeps-the-owner-alive") ELSE ""
 Report == LET c == Cases[i] w == Why(c) IN
           PrintT(ToJson([end |-> c.id, ok |-> (w = ""), step |-> 1, why |-> w, hits |-> <<>>]))
